@@ -30,7 +30,7 @@ def tlc_cases(tier):
     return out
 
 
-def check_case(fb, rec, c, rep, stats):
+def check_case(fb, rec, c, rep, stats, held=None):
     x = np.array([vlib.fl(q) for q in rec['x']]) * c
     x0 = vlib.fl(rec['x0']) * c
     W = np.array([[vlib.fl(q) for q in row] for row in rec['W']])
@@ -43,6 +43,8 @@ def check_case(fb, rec, c, rep, stats):
             rep.violation('raises', dict(x=rec['x'], x0=rec['x0'], n=n, scale=c), 'fd_weights_all raised %r' % (ex,))
             return
         stats['calls'] += 1
+        if held is not None and len(held) < 6000:
+            held.append((rec, n, c, got, np.array(got, dtype=float, copy=True), row, np.array(row, dtype=float, copy=True)))   # what the caller keeps
         if np.shape(got) != (n + 1, m):
             rep.violation('shape', dict(x=rec['x'], x0=rec['x0'], n=n, got=list(np.shape(got))), 'fd_weights_all returned shape %s, expected %s' % (np.shape(got), (n + 1, m)))
             return
@@ -67,10 +69,17 @@ def run(tier, rep):
     recs = [r for res in results for r in res.records if r['usable']]
     skipped = sum(len(res.records) for res in results) - len(recs)
     stats = dict(calls=0, max_ratio=0.0)
-    scales = [1.0, 2.0 ** -17, 2.0 ** 13]
+    scales = [1.0, 2.0 ** -17, 2.0 ** 13, 2.0 ** -34]
+    held = []
     for rec in recs:
         for c in scales:
-            check_case(fb, rec, c, rep, stats)
+            check_case(fb, rec, c, rep, stats, held)
+    # results are values: a table the caller keeps is not changed by later calls (same or other node sets)
+    for rec, n, c, got, snap, row, rsnap in held:
+        if not (np.array_equal(np.asarray(got, dtype=float), snap) and np.array_equal(np.asarray(row, dtype=float), rsnap)):
+            rep.violation('result-overwritten', dict(x=rec['x'], x0=rec['x0'], n=n, scale=c, returned=snap.tolist(), now=np.asarray(got, dtype=float).tolist()),
+                          'fd_weights_all(x=%s, n=%d): the returned table %s was changed by later calls, it now reads %s' % (rec['x'], n, snap.tolist(), np.asarray(got, dtype=float).tolist()))
+            break
     rnd = random.Random(seed)
     again = list(recs)
     rnd.shuffle(again)
@@ -82,7 +91,7 @@ def run(tier, rep):
                samples=[recs[7], recs[-1]], evaluations=stats['calls'], skipped_overflow=skipped,
                distinct_nontrivial=len({(repr(r['x']), repr(r['x0'])) for r in recs if len(r['x']) > 2}),
                rule='every ordered tuple of distinct nodes from a 9-value rational set (sizes 2..4, thorough: 5) x expansion points inside/outside/on a node; all n < len(x); non-trivial = more than two nodes',
-               max_error_over_tolerance=stats['max_ratio'], scales=scales + [2.0 ** -10], tlc=per)
+               max_error_over_tolerance=stats['max_ratio'], scales=scales + [2.0 ** -10], held_results=len(held), tlc=per)
     assum = ['tolerance 64*eps*m*sum|w| per row', 'node sets larger than 5 and non-dyadic spacings only through the scaling lemma',
              'expansion points from a 7-value (3-value for the larger sizes) grid']
     return cov, assum
